@@ -23,10 +23,10 @@
 EXTENDS Integers, Sequences, FiniteSets, TLC
 
 NoEx == [pid |-> -1, seq |-> -1, ch |-> -1, hex |-> "", first |-> 0, last |-> 0,
-         ntx |-> 0, fate |-> "none", ft |-> 0, lastTx |-> 0, ep |-> -1]
+         ntx |-> 0, fate |-> "none", ft |-> 0, lastTx |-> 0, ep |-> -1, ast |-> -1]
 
 Init0 ==
-  [ R |-> 0, T |-> 0, H |-> 0, tcp |-> FALSE, exact |-> TRUE, slk |-> 0, run |-> 0,
+  [ R |-> 0, T |-> 0, H |-> 0, M |-> 256, tcp |-> FALSE, exact |-> TRUE, slk |-> 0, run |-> 0,
     now |-> 0,
     \* ---- connection phase
     phase |-> "init",        \* init | connecting | up | down
@@ -66,7 +66,8 @@ Init0 ==
     accEver |-> {},
     \* ---- heartbeat (C09)
     nextHb |-> 0,            \* time the next heartbeat worker has to start
-    hbLoose |-> FALSE,       \* the epoch began while a Send was pending: its first heartbeat may be up to T late
+    hbLoose |-> FALSE,       \* the epoch began while Sends were pending or queued: requestConn waits for the sequence
+    hbLate |-> 0,            \* mutex behind each of them (up to T each), so the first heartbeat may be that late
     hb |-> << >>,            \* active workers: [start, last, n]
     hbOk |-> << >>,          \* times of own-channel OK responses taken in
     hbBadT |-> -1,           \* time of the last own-channel non-OK response, or -1
@@ -80,9 +81,13 @@ Flag(o, tag) == [o EXCEPT !.bad = Append(@, tag)]
 Note(o, tag) == [o EXCEPT !.note = Append(@, tag)]
 FlagIf(o, c, tag) == IF c THEN Flag(o, tag) ELSE o
 
+\* Slack of the run: 0 in virtual time.  In real time timers never fire early (beyond clock
+\* granularity) but goroutines may be scheduled late, so upper bounds get four times the slack of
+\* lower bounds.
 Slk(o) == o.slk
-\* a = b up to the slack of the run (exact in virtual time)
-Near(o, a, b) == a - b <= Slk(o) /\ b - a <= Slk(o)
+USlk(o) == IF o.exact THEN 0 ELSE 4 * o.slk + o.T   \* real time: upper bounds only catch gross lateness (starved machines exist)
+\* a happened at b: not earlier than b - slack, not later than b + upper slack
+Near(o, a, b) == b - a <= Slk(o) /\ a - b <= USlk(o)
 
 SeqFilter(s, P(_)) == SelectSeq(s, P)
 Idx(s, x) == CHOOSE i \in 1..Len(s) : s[i] = x
@@ -98,13 +103,13 @@ ExOpen(o) == o.ex.fate = "open"
 Tick(o, t) ==
   LET o1 == [o EXCEPT !.now = t, !.bad = << >>, !.note = << >>]
       \* an exchange still open strictly after its deadline has timed out
-      o2 == IF ExOpen(o1) /\ t > o1.ex.first + o1.T + Slk(o1)
+      o2 == IF ExOpen(o1) /\ t > o1.ex.first + o1.T + USlk(o1)
             THEN [o1 EXCEPT !.ex.fate = "timeout", !.ex.ft = o1.ex.first + o1.T]
             ELSE o1
       \* parked acknowledgements are offered for one resend interval only
-      o3 == [o2 EXCEPT !.park = SelectSeq(@, LAMBDA p : t - p.t <= o2.R + Slk(o2))]
+      o3 == [o2 EXCEPT !.park = SelectSeq(@, LAMBDA p : t - p.t <= o2.R + USlk(o2))]
       \* a connect attempt unanswered for T ends the tunnel (and any open exchange with it)
-      o4 == IF o3.phase = "connecting" /\ t > o3.connT + o3.T + Slk(o3)
+      o4 == IF o3.phase = "connecting" /\ t > o3.connT + o3.T + USlk(o3)
             THEN [o3 EXCEPT !.phase = "down", !.termCause = TRUE, !.hb = << >>, !.reconnDue = FALSE,
                             !.ex.ft = IF o3.ex.fate = "open" THEN t ELSE @,
                             !.ex.fate = IF @ = "open" THEN "term" ELSE @]
@@ -116,7 +121,10 @@ Tick(o, t) ==
 
 StartEpoch(o, ch, t) ==
   [o EXCEPT !.phase = "up", !.ch = ch, !.epoch = @ + 1, !.upT = t, !.nextHb = t + o.H,
-            !.hbLoose = (o.ex.fate = "open"),
+            !.hbLoose = (o.ex.fate = "open" \/ o.called \ o.everTx # {}),
+            !.hbLate = (Cardinality(o.called \ o.everTx) + (IF o.ex.fate = "open" THEN 1 ELSE 0)) * o.T,
+            \* acknowledgements parked under the old channel do not carry the new connection's channel
+            !.park = IF ch = o.ch THEN [k \in 1..Len(o.park) |-> [o.park[k] EXCEPT !.m = TRUE]] ELSE << >>,
             !.unsettled = (o.called \ o.everTx # {}), !.preEpoch = o.called \ o.everTx,
             !.oldCh = o.ch, !.oldNext = o.sndNext,
             !.seqLoose = (o.called \ o.everTx # {} /\ ch = o.ch),
@@ -133,32 +141,32 @@ Terminate(o) == [o EXCEPT !.phase = "down", !.hb = << >>, !.reconnDue = FALSE,
 (* Heartbeat workers (C09) *)
 
 \* OK responses usable by a worker started at s: taken in within [s - R, s + T]
-OkFor(o, s) == Cardinality({i \in 1..Len(o.hbOk) : o.hbOk[i] >= s - o.R - Slk(o) /\ o.hbOk[i] <= s + o.T + Slk(o)})
+OkFor(o, s) == Cardinality({i \in 1..Len(o.hbOk) : o.hbOk[i] >= s - o.R - Slk(o) /\ o.hbOk[i] <= s + o.T + USlk(o)})
 
 \* Workers whose deadline has passed are removed; a worker that saw no OK response at
 \* all in its window has certainly failed: that is a cause for (and demands) a reconnect.
 HbExpire(o, t) ==
-  LET dead == {i \in 1..Len(o.hb) : t > o.hb[i].start + o.T + Slk(o)}
+  LET dead == {i \in 1..Len(o.hb) : t > o.hb[i].start + o.T + USlk(o)}
       failed == \E i \in dead : OkFor(o, o.hb[i].start) = 0
-      o1 == [o EXCEPT !.hb = SelectSeq(@, LAMBDA w : ~(t > w.start + o.T + Slk(o)))]
+      o1 == [o EXCEPT !.hb = SelectSeq(@, LAMBDA w : ~(t > w.start + o.T + USlk(o)))]
   IN IF o.phase = "up" /\ failed
      THEN Flag(o1, "C09.FailReconnects")   \* time went past the deadline and no ConnReq was seen
      ELSE o1
 
 \* A heartbeat worker was due strictly before t and did not start.
 HbMissed(o, t) == /\ o.phase = "up" /\ ~o.reconnDue /\ ~o.closeCalled /\ ~o.sockDead
-                  /\ t > o.nextHb + Slk(o) + (IF o.hbLoose THEN o.T ELSE 0)
+                  /\ t > o.nextHb + USlk(o) + (IF o.hbLoose THEN o.hbLate ELSE 0)
 
 OutConnStateReq(o, e) ==
   LET t == e.t
       o0 == FlagIf(o, o.phase = "up" /\ e.ch # o.ch, "C09.HbChannel")
-      loose == o.phase = "up" /\ o.hbLoose /\ t >= o.nextHb - Slk(o) /\ t <= o.nextHb + o.T + Slk(o)
+      loose == o.phase = "up" /\ o.hbLoose /\ t >= o.nextHb - Slk(o) /\ t <= o.nextHb + o.hbLate + USlk(o)
       isNew == (o.phase = "up" /\ Near(o, t, o.nextHb)) \/ loose
-      cand == {i \in 1..Len(o.hb) : Near(o, t, o.hb[i].last + o.R) /\ t <= o.hb[i].start + o.T + Slk(o)}
+      cand == {i \in 1..Len(o.hb) : Near(o, t, o.hb[i].last + o.R) /\ t <= o.hb[i].start + o.T + USlk(o)}
   IN IF isNew
      THEN [o0 EXCEPT !.hb = Append(@, [start |-> t, last |-> t, n |-> 1]),
                      !.nextHb = IF loose THEN t + o.H ELSE @ + o.H, !.hbLoose = FALSE,
-                     !.cause = @ \/ (o.hbBadT >= 0 /\ t - o.hbBadT <= o.R + Slk(o))]
+                     !.cause = @ \/ (o.hbBadT >= 0 /\ t - o.hbBadT <= o.R + USlk(o))]
      ELSE IF cand # {}
      THEN LET i == CHOOSE i \in cand : \A j \in cand : o.hb[i].last <= o.hb[j].last
           IN [o0 EXCEPT !.hb[i].last = t, !.hb[i].n = @ + 1]
@@ -191,7 +199,7 @@ ConsumeParked(o, s) ==
              THEN [o EXCEPT !.park = rest,
                             !.ex.fate = IF P[i].st = 0 THEN "ack0" ELSE "ackE",
                             !.ex.ft = o.now,
-                            !.sndNext = (s + 1) % 256, !.sndAlt = 0]
+                            !.sndNext = (s + 1) % o.M, !.sndAlt = 0]
              ELSE [o EXCEPT !.park = rest, !.ex.fate = "amb", !.ex.ft = o.now, !.sndAlt = 1]
 
 OutTunnelReq(o, e) ==
@@ -205,11 +213,12 @@ OutTunnelReq(o, e) ==
                    !.xs = Append(@, [NoEx EXCEPT !.pid = e.pid, !.fate = "tcp", !.first = t, !.ft = t])]
   ELSE IF (ExOpen(o) \/ o.ex.fate = "amb") /\ e.hex = o.ex.hex THEN
      \* retransmission of the open exchange (it also settles an ambiguous one: not acknowledged)
-     LET o1 == FlagIf(o, ~Near(o, t, o.ex.last + o.R), "C03.RetxPeriod")
-         o2 == FlagIf(o1, t > o.ex.first + o.T + Slk(o), "C03.RetxAfterDeadline")
-     IN [o2 EXCEPT !.ex.last = t, !.ex.ntx = @ + 1, !.ex.fate = "open",
-                   !.sndAlt = IF o.ex.fate = "amb" THEN 0 ELSE @]
-  ELSE IF o.ex.fate \in {"term", "ack0", "ackE"} /\ e.hex = o.ex.hex /\ t <= o.ex.ft + Slk(o) /\ e.pid \in o.called
+     LET o1 == FlagIf(o, IF o.exact THEN t # o.ex.last + o.R ELSE t < o.ex.last + o.R - Slk(o), "C03.RetxPeriod")
+         o2 == FlagIf(o1, t > o.ex.first + o.T + USlk(o), "C03.RetxAfterDeadline")
+         settle == o.ex.fate = "amb" /\ o.ex.ast = -1   \* ambiguous only because of a parked offer: evidently not taken
+     IN [o2 EXCEPT !.ex.last = t, !.ex.ntx = @ + 1, !.ex.fate = IF settle THEN "open" ELSE @,
+                   !.sndAlt = IF settle THEN 0 ELSE @]
+  ELSE IF o.ex.fate \in {"term", "ack0", "ackE"} /\ e.hex = o.ex.hex /\ t <= o.ex.ft + USlk(o) /\ e.pid \in o.called
        THEN o   \* resend tick at the very instant of termination / of the acknowledgement: select may take it first
   ELSE IF ExOpen(o) /\ e.pid = o.ex.pid THEN Flag(o, "C03.RetxIdentical")
   ELSE
@@ -222,17 +231,17 @@ OutTunnelReq(o, e) ==
          o1b == IF ExOpen(o1) THEN [o1 EXCEPT !.ex.fate = "timeout", !.ex.ft = o.ex.first + o.T] ELSE o1
          o2 == FlagIf(o1b, e.pid \notin o.called, "C03.TxWithoutSend")
          o3 == FlagIf(o2, e.pid \in o.everTx, "C03.RetxIdentical")
-         newSeqOk == e.seq = o.sndNext \/ (o.sndAlt = 1 /\ e.seq = (o.sndNext + 1) % 256)
+         newSeqOk == e.seq = o.sndNext \/ (o.sndAlt = 1 /\ e.seq = (o.sndNext + 1) % o.M)
          \* (the gateway may hand out the same channel number again: then the numbering tells the epochs apart)
          oldEp == o.unsettled /\ e.pid \in o.preEpoch /\ e.ch = o.oldCh /\ (e.ch # o.ch \/ ~newSeqOk)
          o4 == FlagIf(o3, o.phase = "up" /\ e.ch # o.ch /\ ~oldEp, "C09.EpochFresh")
-         seqOk == IF oldEp THEN e.seq \in {o.oldNext, (o.oldNext + 1) % 256} ELSE newSeqOk
+         seqOk == IF oldEp THEN e.seq \in {o.oldNext, (o.oldNext + 1) % o.M} ELSE newSeqOk
          looseOk == o.seqLoose /\ (e.pid \in o.preEpoch \/ e.seq = 0)
          o5 == FlagIf(o4, o.phase = "up" /\ ~seqOk /\ ~looseOk, "C03.AckedConsecutive")
          keep == IF o.ex.pid \in o.called THEN Append(o5.xs, o5.ex) ELSE o5.xs
          o6 == [o5 EXCEPT !.xs = keep,
                           !.ex = [pid |-> e.pid, seq |-> e.seq, ch |-> e.ch, hex |-> e.hex, first |-> t,
-                                  last |-> t, ntx |-> 1, fate |-> IF o.phase = "down" THEN "term" ELSE "open", ft |-> t, lastTx |-> t,
+                                  last |-> t, ntx |-> 1, fate |-> IF o.phase = "down" THEN "term" ELSE "open", ft |-> t, lastTx |-> t, ast |-> -1,
                                   ep |-> IF oldEp THEN o.epoch - 1 ELSE o.epoch],
                           !.everTx = @ \cup {e.pid},
                           !.sndNext = IF oldEp THEN @ ELSE e.seq, !.sndAlt = IF oldEp THEN @ ELSE 0,
@@ -249,13 +258,15 @@ InTunnelRes(o, e) ==
   THEN [o EXCEPT !.ex.fate = "amb", !.ex.ft = e.t]     \* old-epoch acknowledgement for an old-epoch request
   ELSE
   IF o.tcp \/ o.phase # "up" \/ e.ch # o.ch THEN o
+  ELSE IF o.ex.fate = "amb" /\ e.seq = o.ex.seq /\ o.ex.pid \in o.called
+       THEN [o EXCEPT !.ex.ast = e.st, !.ex.ft = e.t]     \* a (further) matching acknowledgement for an undecided exchange
   ELSE IF ExOpen(o) THEN
        IF e.seq = o.ex.seq
        THEN LET amb == e.t >= o.ex.first + o.T - Slk(o)   \* taken in at the very deadline
                        \/ o.closeCalled                   \* or racing with close(done)
             IN [o EXCEPT !.ex.fate = IF amb THEN "amb" ELSE IF e.st = 0 THEN "ack0" ELSE "ackE",
-                         !.ex.ft = e.t,
-                         !.sndNext = IF amb THEN @ ELSE (e.seq + 1) % 256,
+                         !.ex.ft = e.t, !.ex.ast = e.st,
+                         !.sndNext = IF amb THEN @ ELSE (e.seq + 1) % o.M,
                          !.sndAlt = IF amb THEN 1 ELSE 0]
        \* a mismatching acknowledgement is dropped by the waiting Send - unless its relay goroutine is late
        ELSE [o EXCEPT !.park = Append(@, [seq |-> e.seq, st |-> e.st, t |-> e.t, m |-> TRUE])]
@@ -283,7 +294,7 @@ SendRet(o, e) ==
       o1 == FlagIf(o0, cls = "ok" /\ ~(x.fate \in {"ack0", "amb", "tcp"}), "C03.SuccessNeedsAck")
       o2 == FlagIf(o1, x.fate = "ackE" /\ cls = "ok", "C03.ErrAckFails")
       \* C03: return no later than T after the first transmission
-      o3 == FlagIf(o2, transmitted /\ ~o.tcp /\ e.t > x.first + o.T + Slk(o), "C03.ReturnDeadline")
+      o3 == FlagIf(o2, transmitted /\ ~o.tcp /\ e.t > x.first + o.T + USlk(o), "C03.ReturnDeadline")
       \* drift-level expectations (not demanded by the property text)
       o4 == IF x.fate = "ack0" /\ cls # "ok" THEN Note(o3, "drift.AckedButFailed") ELSE o3
       o5 == IF cls = "timeout" /\ transmitted /\ ~Near(o, e.t, x.first + o.T) THEN Note(o4, "drift.TimeoutTime") ELSE o4
@@ -295,11 +306,14 @@ SendRet(o, e) ==
       \* The numbering follows the acknowledged requests: the return of the current exchange settles
       \* whatever was ambiguous (acknowledgement at the deadline, racing relays, Close in between).
       newEp == x.ep = o.epoch
+      \* an acknowledgement that turned out not to have been consumed (the Send failed) is still on offer
+      o5d == IF o5c.ex.pid = e.pid /\ x.fate = "amb" /\ x.ast # -1 /\ cls \notin {"ok", "rejected"}
+             THEN [o5c EXCEPT !.park = Append(@, [seq |-> x.seq, st |-> x.ast, t |-> x.ft, m |-> TRUE])] ELSE o5c
       o6 == IF o5c.ex.pid = e.pid /\ ~o.tcp /\ transmitted /\ newEp /\ x.fate # "term"
-            THEN [o5c EXCEPT !.sndNext = IF cls \in {"ok", "rejected"} THEN (x.seq + 1) % 256 ELSE x.seq, !.sndAlt = 0]
+            THEN [o5d EXCEPT !.sndNext = IF cls \in {"ok", "rejected"} THEN (x.seq + 1) % o.M ELSE x.seq, !.sndAlt = 0]
             ELSE IF o5c.ex.pid = e.pid /\ ~o.tcp /\ transmitted /\ x.ep = o.epoch - 1 /\ o.unsettled
-            THEN [o5c EXCEPT !.oldNext = IF cls \in {"ok", "rejected"} THEN (x.seq + 1) % 256 ELSE x.seq]
-            ELSE o5c
+            THEN [o5d EXCEPT !.oldNext = IF cls \in {"ok", "rejected"} THEN (x.seq + 1) % o.M ELSE x.seq]
+            ELSE o5d
       \* C05 bookkeeping: order of successful telegrams on the bus
   IN IF cls = "ok" /\ ~o.tcp
      THEN LET onBus == InSeq(o.bus, e.pid)
@@ -322,10 +336,10 @@ InTunnelReq(o, e) ==
        [o EXCEPT !.acc = Append(@, [pid |-> e.pid, parked |-> FALSE, idle |-> o.idles]), !.accEver = @ \cup {e.pid}, !.accSeq = Append(@, e.pid)]
   ELSE IF e.seq = o.rcvExp THEN
        LET o1 == FlagIf(o, e.pid \in o.accEver /\ e.pid >= 0, "C05.AppExactlyOnce")
-       IN [o1 EXCEPT !.rcvExp = (@ + 1) % 256, !.acc = Append(@, [pid |-> e.pid, parked |-> FALSE, idle |-> o.idles]), !.accEver = @ \cup {e.pid},
+       IN [o1 EXCEPT !.rcvExp = (@ + 1) % o.M, !.acc = Append(@, [pid |-> e.pid, parked |-> FALSE, idle |-> o.idles]), !.accEver = @ \cup {e.pid},
                      !.accSeq = Append(@, e.pid),
                      !.ackDue = [ch |-> e.ch, seq |-> e.seq]]
-  ELSE IF e.seq = (o.rcvExp + 255) % 256 THEN [o EXCEPT !.ackDue = [ch |-> e.ch, seq |-> e.seq]]
+  ELSE IF e.seq = (o.rcvExp + o.M - 1) % o.M THEN [o EXCEPT !.ackDue = [ch |-> e.ch, seq |-> e.seq]]
   ELSE o
 
 OutTunnelRes(o, e) ==
@@ -429,11 +443,11 @@ Quiescent(o, t) ==
   LET o1 == Settled(o)
       o2 == FlagIf(o1, o1.reconnDue /\ o1.phase = "up" /\ ~o1.sockSendFail /\ ~o1.sockClosed /\ ~o1.closeCalled, "C09.FailReconnects")
       \* connect attempt unanswered for T: the tunnel terminates
-      o3 == IF o2.phase = "connecting" /\ t > o2.connT + o2.T + Slk(o2) THEN Terminate([o2 EXCEPT !.termCause = TRUE]) ELSE o2
+      o3 == IF o2.phase = "connecting" /\ t > o2.connT + o2.T + USlk(o2) THEN Terminate([o2 EXCEPT !.termCause = TRUE]) ELSE o2
   IN o3
 
 Cfg(o, e) ==
-  [Init0 EXCEPT !.R = e.a, !.T = e.b, !.H = e.g, !.run = e.pid,
+  [Init0 EXCEPT !.R = e.a, !.T = e.b, !.H = e.g, !.run = e.pid, !.M = IF e.seq > 0 THEN e.seq ELSE 256,
                 !.tcp = (e.s \in {"tcp,bubble", "tcp,real"}),
                 !.exact = (e.s \in {"udp,bubble", "tcp,bubble"}),
                 !.slk = IF e.s \in {"udp,bubble", "tcp,bubble"} THEN 0 ELSE e.ch]
@@ -457,7 +471,8 @@ Step(o, e) ==
     [] e.k = "SendRet"  -> SendRet(oc, e)
     [] e.k = "Recv"     -> Recv(oc, e)
     [] e.k = "RecvNone" -> FlagIf(oc, oc.closeRet, "C10.InboundClosedAfterClose")
-    [] e.k = "RecvClosed" -> FlagIf(oc, ~(oc.phase = "down" \/ oc.termCause \/ oc.closeCalled \/ oc.sockDead), "C09.SpuriousTermination")
+    [] e.k = "RecvClosed" -> FlagIf(oc, ~(\/ oc.phase = "down" \/ oc.termCause \/ oc.closeCalled \/ oc.sockDead
+                                             \/ (oc.phase = "connecting" /\ t >= oc.connT + oc.T - Slk(oc))), "C09.SpuriousTermination")
     [] e.k = "Drained"  -> FlagIf(oc, oc.phase = "up" /\ ~oc.termCause /\ ~oc.closeCalled /\ Len(oc.acc) > 0, "C04.NothingLost")
     [] e.k = "Idle"     -> [Quiescent(oc, t) EXCEPT !.idles = @ + 1]
     [] e.k = "Hook"     -> IF e.s = "tunnel-parked" THEN HookParked(oc) ELSE oc
@@ -471,7 +486,7 @@ Step(o, e) ==
                                 t0 == IF mine = {} THEN t ELSE oc.closeAt[CHOOSE i \in mine : \A j \in mine : i >= j].t
                                 \* bound: a reconnect in progress may have to wait for the sequence mutex behind every
                                 \* sender goroutine (each holding it for up to T), then for its own timeout
-                                o1 == FlagIf(oc, t - t0 > (2 + Cardinality(oc.senders)) * oc.T + oc.R + Slk(oc), "C10.CloseBounded")
+                                o1 == FlagIf(oc, t - t0 > (2 + Cardinality(oc.senders)) * oc.T + oc.R + USlk(oc), "C10.CloseBounded")
                                 o2 == FlagIf(o1, oc.discOut = 0 /\ ~oc.sockSendFail /\ ~oc.sockDead, "C10.OneDisc")
                             IN Terminate([o2 EXCEPT !.closeRet = TRUE])
     [] e.k = "SockFail"  -> IF e.s = "send" THEN [oc EXCEPT !.sockSendFail = TRUE, !.termCause = TRUE, !.cause = TRUE]
